@@ -310,7 +310,13 @@ func (x *explorer) dfs(prefix []int, used int) {
 func (x *explorer) stuckKey(res *vsched.Result) {
 	for i := range res.Violations {
 		if res.Violations[i].Key == "STUCK" {
-			res.Violations[i].Key = x.sc.Family + "|driver-stuck"
+			// reported under the property the scenario runs for (a donor scenario's own
+			// oracles never ran either)
+			fam := x.sc.Family
+			if j := strings.Index(fam, "/"); j >= 0 && x.sc.Prop != "" {
+				fam = x.sc.Prop + fam[j:]
+			}
+			res.Violations[i].Key = fam + "|driver-stuck"
 		}
 	}
 }
